@@ -308,7 +308,19 @@ impl Space for Ffi {
 
         // ---- Instant ----
         if ix[0] == 0 {
-            let vals: [i128; 7] = [0, 5, -5, 1_614_834_367_008_009_010 + ix[1] as i128, -1_614_834_367_008_009_010, 8_640_000_000_000_000_000_000, -8_640_000_000_000_000_000_001];
+            // the FFI value is a two's-complement (high, low) word pair: every high word of the valid range and
+            // its neighbours, at the low-word extremes; both range ends +-1; the i128 extremes
+            if ix[1] == 0 {
+                let w = 1i128 << 64;
+                let mut words: Vec<i128> = vec![i128::MIN, i128::MAX, 8_640_000_000_000_000_000_000, 8_640_000_000_000_000_000_001, 8_639_999_999_999_999_999_999, -8_640_000_000_000_000_000_000, -8_640_000_000_000_000_000_001, -8_639_999_999_999_999_999_999, (1i128 << 63) - 1, 1i128 << 63, -(1i128 << 63), -(1i128 << 63) - 1];
+                for h in -471i128..=471 {
+                    words.extend([h * w, h * w + 1, h * w + (w - 1)]);
+                }
+                for v in words {
+                    pairs!(out, n, "Instant::try_new", || vec![("epoch_ns", v.to_string()), ("high_word", (v >> 64).to_string())], snap_inst_ffi, snap_inst_core, finst::Instant::try_new(i128_parts(v)), Instant::try_new(v));
+                }
+            }
+            let vals: [i128; 8] = [0, 5, -5, 1_614_834_367_008_009_010 + ix[1] as i128, -1_614_834_367_008_009_010, 8_640_000_000_000_000_000_000, -8_640_000_000_000_000_000_000, -8_640_000_000_000_000_000_001];
             for v in vals {
                 let ia = || vec![("epoch_ns", v.to_string())];
                 pairs!(out, n, "Instant::try_new", ia, snap_inst_ffi, snap_inst_core, finst::Instant::try_new(i128_parts(v)), Instant::try_new(v));
